@@ -19,6 +19,8 @@ from ..unittables import UNIT_TYPES_PY
 from . import C03, C08
 from . import common as K
 
+from . import C07 as _C07
+
 LEVEL_TEXT = ("static analysis (ast): operand-order tables of the operator methods, symbolic shapes of the magnitude and "
               "unit-exponent terms each operator builds, decision table of the unit-folding block, guards of the unit "
               "types' add/sub; shared exponent/fraction identities from C03 and magnitude value terms from C08")
@@ -254,10 +256,15 @@ def r5_values(ctx):
         ctx.unrecognised(C08.MAG, "Magnitude.__neg__", "value", "not `return Magnitude(...)`")
 
 
+def r6_operands_intact(ctx):
+    _C07.r1_no_operand_mutation(ctx)
+
+
 RULES = [
     ("C06.R1", "reflected operators hand (self, other) resp. (other, self) to the shared implementation; plain numbers are wrapped", r1_reflected),
     ("C06.R2", "operator shapes: product/quotient/power/negation terms; sum/difference take the left units, the claiming type's add/sub(left, right), dimension guard, out-of-place conversion of the right operand", r2_shapes),
     ("C06.R3", "exponent algebra of Atom/BaseUnits and rational arithmetic of Fraction (identities per operand kind; no float into the truncating constructor)", r3_exponents),
     ("C06.R4", "folding of cancelled units: decision table over (total dimensionless, unit dimensionless)", r4_folding),
     ("C06.R5", "magnitude value terms l op r in float and Decimal branches; power and negation", r5_values),
+    ("C06.R6", "arithmetic leaves its operands intact, so repeated use of an operand keeps agreeing with its base-dimension value (effect analysis shared with C07.R1)", r6_operands_intact),
 ]
